@@ -73,6 +73,7 @@ impl WordInfoParser {
 impl WordInfo {
 // R11: From<WordInfoData> for WordInfo as an inherent fn
 //@extract sudachi/src/dic/lexicon/word_infos.rs :: impl From<WordInfoData> for WordInfo :: fn from
+//@  twin
 //@  ret r
 //@  spec
         ensures r.data == data
